@@ -29,6 +29,8 @@ func init() {
 			{ID: "C07.R4", Min: 2, Desc: "bounded waits on the stop path", Fn: c07BoundedWaits},
 			{ID: "C07.R5", Min: 5, Desc: "shutdown wiring: poison kill of root, cancel, guardian goroutine", Fn: c07Wiring},
 			{ID: "C07.R7", Min: 1, Desc: "a remote send in its retry loop aborts once the system context is cancelled, so Stop is not held up by an unreachable peer (part of C14.R4)", Fn: c14StopAborts},
+			{ID: "C07.R12", Min: 3, Desc: "Stop terminates every actor: a child spawned on the root while it stops is killed, whichever state the re-check finds (C06.R5)", Fn: c06SpawnWhileDying},
+			{ID: "C07.R13", Min: 3, Desc: "Stop completes: a directive that its target ignores strands nobody in a paused mailbox (C09.R10)", Fn: c09IgnoredDirectives},
 			{ID: "C07.R8", Min: 3, Desc: "the work of Stop is serialised with the start-up: one lock taken with the status flip in Start, held across the start-up chain, taken by stop before it looks at what Start creates", Fn: c07StartStopSerialised},
 			{ID: "C07.R9", Min: 1, Desc: "every mutex acquisition is released on every path (no call can block forever on a leaked lock)", Fn: lockPairing},
 			{ID: "C07.R10", Min: 4, Desc: "a dying actor's pending asks are completed before its OnKill handler runs, so a handler waiting on one cannot block the termination (C04.R5)", Fn: c04AskerDeath},
